@@ -313,21 +313,48 @@ func cmdCheck(args []string) int {
 			wg2.Add(1)
 			go func(pkg string, idx []int) {
 				defer wg2.Done()
-				var list []string
 				funcs := map[string]bool{}
 				for _, i := range idx {
-					list = append(list, items[i].entry.Func+"="+items[i].file)
 					funcs[items[i].entry.Func] = true
 				}
-				out := nativeReplay(vdir, repo, pkg, id, funcs, list)
+				witnessClean := func(sec string) bool {
+					return strings.Contains(sec, "VERIF-REPLAY-END") && !strings.Contains(sec, "VERIF-ASSERT-FAILED") &&
+						!strings.Contains(sec, "VERIF-PANIC") && !strings.Contains(sec, "VERIF-ASSUME-FAILED") && !strings.Contains(sec, "VERIF-HANG")
+				}
+				// native runs involve real goroutines and timers: an item that does not behave as the
+				// model says is re-run (up to 3 attempts) before it counts as not reproduced
+				results := map[int]string{}
+				pending := idx
+				for attempt := 0; attempt < 3 && len(pending) > 0; attempt++ {
+					var plist []string
+					for _, i := range pending {
+						plist = append(plist, items[i].entry.Func+"="+items[i].file)
+					}
+					out := nativeReplay(vdir, repo, pkg, id, funcs, plist)
+					var again []int
+					for k, i := range pending {
+						sec := section(out, k)
+						results[i] = sec
+						it := items[i]
+						okNow := false
+						if it.kind == "witness" {
+							okNow = witnessClean(sec)
+						} else {
+							okNow = strings.HasPrefix(classify(sec, it.expect), "confirmed")
+						}
+						if !okNow {
+							again = append(again, i)
+						}
+					}
+					pending = again
+				}
 				mu.Lock()
 				defer mu.Unlock()
-				for k, i := range idx {
+				for _, i := range idx {
 					it := items[i]
-					sec := section(out, k)
+					sec := results[i]
 					if it.kind == "witness" {
-						if strings.Contains(sec, "VERIF-REPLAY-END") && !strings.Contains(sec, "VERIF-ASSERT-FAILED") &&
-							!strings.Contains(sec, "VERIF-PANIC") && !strings.Contains(sec, "VERIF-ASSUME-FAILED") && !strings.Contains(sec, "VERIF-HANG") {
+						if witnessClean(sec) {
 							witnessOK++
 						} else {
 							witnessBad++
